@@ -358,7 +358,7 @@ func (env *Env) addrOfExpr(x ast.Expr) *Addr {
 		b := env.eval(n.X)
 		i := env.eval(n.Index)
 		if sl, ok := b.Ty.Underlying().(*types.Slice); ok {
-			return &Addr{Kind: aElem, Ref: sx("sl_reg", b.T), Idx: sx("+", sx("sl_off", b.T), i.T), Base: sl.Elem()}
+			return &Addr{Kind: aElem, Ref: sx("sl_reg", b.T), Idx: e.at(sx("sl_off", b.T), i.T), Base: sl.Elem()}
 		}
 	case *ast.Ident:
 		v := env.ident(n.Name)
